@@ -13,7 +13,9 @@ NETS = {
 
 
 def cases():
-    from ..props import C02, C19, c19_rename
+    import copy as _copy
+    from ..props import C02, C19, c19_rename, c02_copy
+    cp = {'native_call': (lambda nat, a, k: _copy.copy(nat)), 'result_holder': (lambda ctx, v: getattr(v, 'holder', None))}
     return [
         # (name, method, factory, net, extra labels, max tuples, quick?)
         ('mark_as_output', 'mark_as_output', lambda: C02.MarkAsOutput(), 'n6', ('zz',), 7, True),
@@ -28,15 +30,19 @@ def cases():
         ('add_inputs/2', 'add_inputs', lambda: C02.AddInputs(2), 'n6', ('zz', 'yy'), 64, False),
         ('replace_inputs/1+1', 'replace_inputs', lambda: C19.ReplaceInputs(1, 1), 'n6', ('zz',), 49, False),
         ('replace_inputs/2+0', 'replace_inputs', lambda: C19.ReplaceInputs(2, 0), 'n5', (), 25, False),
+        ('copy/n6', '__copy__', lambda: c02_copy.Copy(), 'n6', (), 1, False, cp),
+        ('copy/n5', '__copy__', lambda: c02_copy.Copy(), 'n5', (), 1, False, cp),
     ]
 
 
 def _run_one(idx):
     from ..props.common import new_interp
     from . import conformance as K
-    name, method, factory, net, extra, cap, _ = cases()[idx]
+    case = cases()[idx]
+    name, method, factory, net, extra, cap, _ = case[:7]
+    kw = case[7] if len(case) > 7 else {}
     try:
-        probs = K.run_case(new_interp, factory, NETS[net], method, extra_labels=extra, max_tuples=cap)
+        probs = K.run_case(new_interp, factory, NETS[net], method, extra_labels=extra, max_tuples=cap, **kw)
         return name, probs, list(getattr(K.run_case, 'last_imprecise', []))
     except Exception as e:       # a crash of the harness is reported, it is not a conformance failure of the model
         import traceback
@@ -69,6 +75,6 @@ if __name__ == '__main__':
     for p in probs:
         print('  PROBLEM:', p[:600])
     for p in getattr(run, 'imprecise', []):
-        print('  over-approximation (sound, not exact):', p[:300])
+        print('  not exact (sound over-approximation or solver limit):', p[:300])
     print(f'CONFORMANCE {n} cases', 'OK' if not probs else f'FAILED ({len(probs)})', f'{time.time() - t0:.1f}s')
     sys.exit(0 if not probs else 3)
